@@ -22,8 +22,8 @@ import (
 	"github.com/massnetorg/mass-core/wire"
 	"massnet.org/mass/config"
 	"massnet.org/mass/poc/wallet/keystore"
-	"massnet.org/mass/poc/wallet/keystore/wordlists"
 	"massnet.org/mass/poc/wallet/keystore/hdkeychain"
+	"massnet.org/mass/poc/wallet/keystore/wordlists"
 	"verifharness/hx"
 )
 
